@@ -69,6 +69,8 @@ def gen_case(rng):
 
 
 def check(allocc, xs, script, answer):
+    if answer.startswith("<"):
+        return "the stream functions: %s" % answer[:200]
     got = answer.split()
     if len(got) != len(script):
         return "answered %d of %d calls" % (len(got), len(script))
@@ -111,7 +113,13 @@ def run(ctx):
         script = "".join(rng.choice("pppn") for _ in range(len(allocc) + rng.randint(1, 4)))
         cases.append((tree, allocc, xs, script))
         hist[" ".join(tags)] += 1
-    ops = ["m.run %s # %s" % (p_strm.render(t), s) for t, _, _, s in cases]
+    # one script in four goes on as a clone of the filter at some point (`c', no call of its own): the same stream
+    def with_clone(s):
+        if rng.random() < 0.25:
+            k = rng.randint(0, len(s))
+            return s[:k] + "c" + s[k:]
+        return s
+    ops = ["m.run %s # %s" % (p_strm.render(t), with_clone(s)) for t, _, _, s in cases]
     extra_ops = common.load_corpus("C02")
     # the RDATE / EXDATE lists as one stream (__make_evrdat: DATEs take DTSTART's time, sorted, repeats dropped)
     for _ in range(3000 if ctx.tier == "thorough" else 400):
